@@ -73,7 +73,8 @@ def run(ck):
         calls_b = wb.c15_good_calls() + wb.fail_calls()
         run_history(wb, calls_b, hc["twin"])
         pb, _ = probe_all(wb, False)
-        evs.append({"id": k, "kind": "twin", "h": hc["h"], "twin": hc["twin"], "outcomes": oa, "pa": pa, "pb": pb, "rep": rep})
+        evs.append({"id": k, "kind": "twin", "h": hc["h"], "twin": hc["twin"], "outcomes": oa, "pa": pa, "pb": pb, "rep": rep,
+                    "isfail": [1 if c > 5 else 0 for c in hc["h"]]})
         ck.count()
         nfailed = sum(1 for c, o in zip(hc["h"], oa) if c > 5 and o == "err")
         if nfailed:
@@ -97,7 +98,7 @@ def run(ck):
     ck.sample({"history": [names[c - 1] for c in evs[7]["h"]], "twin": [names[c - 1] for c in evs[7]["twin"]],
                "outcomes": evs[7]["outcomes"], "probe0_A": evs[7]["pa"][0]})
     ck.cov["exhaustive"] = not quick
-    ck.cov["rule"] = ("fault histories enumerated by TLC (all sequences of length <= 3 over 5 good + 21 failing calls with >= 1 failing "
+    ck.cov["rule"] = ("fault histories enumerated by TLC (all sequences of length <= 3 over 5 good + 23 failing calls with >= 1 failing "
                       "call; length 3 sampled in quick; simulated length 7) x 18 probes, twin run without the failing calls. "
                       "non-trivial = distinct histories in which at least one call actually raised")
     ck.assumptions += ["harness/envcalls.py catalogue of failing calls covers: ill-typed construction, sort-breaking substitution at 5 "
